@@ -25,6 +25,10 @@ CHECKS = {
                 technique="small-scope exhaustive enumeration of graph structures (all wirings incl. cycles x all initial permutations x two object creation orders) against a networkx dependency reference",
                 text="Every wiring of up to 3 (quick) / 4 (thorough) nodes with optional, repeated and multi-output inputs, with nested bodies (one and two levels) capturing values of enclosing graphs, in every initial permutation, is sorted through Graph.sort, Function.sort and TopologicalSortPass; the result must be a linear extension of the reference dependency relation per graph, keep membership, leave valid orders untouched, be idempotent and independent of object creation order; cyclic instances must raise ValueError and leave every order unchanged.",
                 note="Trusts networkx for acyclicity; the generator excludes outer nodes using inner values (not valid ONNX scoping)."),
+    "C16": dict(level="exploration", engine="E6-enum", design="4/C16",
+                technique="exhaustive enumeration of expression trees x integer bindings against exact Fraction arithmetic; exhaustive enumeration of token strings of the documented grammar against Python's arithmetic grammar",
+                text="Every expression tree up to depth 2 (plus rounding operators on top of every depth-2 rational expression; depth 3 over a reduced operator set in thorough) built through the real operator overloads, with int or symbolic operands on either side, is evaluated under every binding of a small positive domain, completely and partially in both orders, directly, after simplify(), after re-parsing its printed form and after a dim_param serde round trip, and compared with exact fractions.Fraction arithmetic. Every token string up to 6 (7) tokens that the documented grammar derives is parsed and compared with the standard arithmetic meaning (Python's grammar evaluated over Fractions).",
+                note="Trusts fractions/math and the Python parser as references. Positive integer bindings only; powers compared for small exponents."),
 }
 
 NOT_YET = {}
@@ -66,7 +70,7 @@ def main():
              "kind_free_text": "explicit-state BFS over the real transition function; states are histories replayed on fresh real objects; dedup on canonical public snapshot"},
             {"name": "E1-seq", "path": "mc/props/c11.py", "serves_properties": ["C11"],
              "kind_free_text": "stateless enumeration of all event sequences up to a depth with trace monitors"},
-            {"name": "E6-enum", "path": "mc/props/", "serves_properties": ["C12"],
+            {"name": "E6-enum", "path": "mc/props/", "serves_properties": ["C12", "C16"],
              "kind_free_text": "small-scope exhaustive input/structure enumeration with independent reference oracles"},
             {"name": "E4-sched", "path": "mc/sched.py", "serves_properties": ["C09"],
              "kind_free_text": "cooperative baton scheduler for real threads + stateless DFS with delay/preemption bounding"},
